@@ -90,8 +90,10 @@ func (e *EQuant) String() string {
 	}
 	return "(" + q + " " + strings.Join(vs, ", ") + " :: " + e.Body.String() + ")"
 }
-func (e *EOld) String() string  { return "old(" + e.X.String() + ")" }
-func (e *ECond) String() string { return "ite(" + e.C.String() + "," + e.T.String() + "," + e.F.String() + ")" }
+func (e *EOld) String() string { return "old(" + e.X.String() + ")" }
+func (e *ECond) String() string {
+	return "ite(" + e.C.String() + "," + e.T.String() + "," + e.F.String() + ")"
+}
 func (e *ETypeLit) String() string {
 	return "type(" + e.T + ")"
 }
